@@ -19,7 +19,7 @@ ANCHOR_FILES = ["src/ropt/plugins/_manager.py", "src/ropt/plugins/base.py", "src
 EXECUTION_COUNTERS = ["histories"]   # executions of the oracle inside the cases (reported as coverage.evaluations)
 RULE = ("case = (plug-in type, first two operations); inside, every continuation up to the length bound is executed on a fresh manager; "
         "a history is non-trivial if it contains at least one add and one lookup; distinct key = (type, op prefix); per-operation comparisons in monitor_counters.ops_compared")
-ASSUMPTIONS = ["method names are matched by the plug-ins themselves (built-ins lower-case them); the bare name 'default' is not exercised (the statement does not cover it)"]
+ASSUMPTIONS = ["method names are matched by the plug-ins themselves (built-ins lower-case them); the bare name 'default' is a bare method name like any other (the statement makes no exception for it; get_plugin builds a message about it that it never raises)"]
 EXHAUSTIVE = {"quick": True, "thorough": True}
 BOUNDS = {"quick": {"length_all_types": 3}, "thorough": {"length_all_types": 4, "length_optimizer": 5}}
 REQUIRED = {"quick": {"histories": 30000, "ops_compared": 90000, "other_manager_probes": 30000, "histories_after_a_registration_for_another_type": 10000, "__nontrivial__": 500},
@@ -219,7 +219,7 @@ def run_case(case, obs):
         seqs = ([*pre, *rest] for rest in itertools.product(range(len(ops)), repeat=L - 2))
     # method names may themselves contain a slash (the documented external/<plugin>/<method> form): the plug-in name ends at
     # the first one
-    probes = sorted({o[1] for o in ops if o[0] in ("get", "sup")} | {"p1/grp/a", "P1/GRP/A", "p2/grp/a", "p3/grp/a", "grp/a", "Fast", "fast", "FAST", "p4/Fast", "P4/fast", "p4/B", "p4/b"}
+    probes = sorted({o[1] for o in ops if o[0] in ("get", "sup")} | {"p1/grp/a", "P1/GRP/A", "p2/grp/a", "p3/grp/a", "grp/a", "Fast", "fast", "FAST", "p4/Fast", "P4/fast", "p4/B", "p4/b", "default", "Default", "scipy/default", "default/default"}
                     | ({"external/scipy/slsqp", "external/SciPy/SLSQP", "external/scipy/no-such-method"} if ptype == "optimizer" else set()))
     other = PluginManager()
     baseline = {g: _apply_real(other, ptype, ("get", g), None) for g in probes}
